@@ -7,7 +7,8 @@ Import ListNotations.
 Record case := { k_cfg : cfg; k_ops : list lop; k_obs : list lrec; k_preds : list bool }.
 
 Definition preds (k : case) : list bool :=
-  [disconnect_while_waiting (k_cfg k) (k_ops k); stealth_several_clients (k_cfg k)].
+  [disconnect_while_waiting (k_cfg k) (k_ops k); stealth_several_clients (k_cfg k);
+   directory_already_configured (k_cfg k)].
 
 Definition check (k : case) : verdict :=
   if negb (wf (k_cfg k) (k_ops k)) then VSkip else
